@@ -29,7 +29,10 @@ use bzip2_rs::decoder::Decoder;
 use crate::buffer::Utf8Decoder;
 use crate::protocols::valve::Packet;
 use byteorder::LittleEndian;
+#[cfg(not(gamedig_verif))]
 use std::collections::HashMap;
+#[cfg(gamedig_verif)]
+use crate::verif_hook::collections::HashMap;
 use std::net::SocketAddr;
 
 #[derive(Debug)]
